@@ -66,6 +66,37 @@ func (s *diskSM) RecoverFromSnapshot(r io.Reader, _ <-chan struct{}) error {
 }
 func (s *diskSM) Close() error { return nil }
 
+// regSM is a regular (in-memory) state machine: its state is the index of the last
+// applied entry and nothing of it survives a restart.
+type regSM struct {
+	d *diskState
+	r *recorder
+}
+
+func (s *regSM) Update(e sm.Entry) (sm.Result, error) {
+	s.d.vol = e.Index
+	return sm.Result{Value: e.Index}, nil
+}
+func (s *regSM) Lookup(interface{}) (interface{}, error) { return s.d.vol, nil }
+func (s *regSM) SaveSnapshot(w io.Writer, _ sm.ISnapshotFileCollection, _ <-chan struct{}) error {
+	_, err := w.Write(payloadOf(s.d.vol, 1))
+	return err
+}
+func (s *regSM) RecoverFromSnapshot(r io.Reader, _ []sm.SnapshotFile, _ <-chan struct{}) error {
+	b, err := io.ReadAll(r)
+	if err != nil {
+		return err
+	}
+	if len(b) < 8 {
+		return fmt.Errorf("short image")
+	}
+	idx := binary.LittleEndian.Uint64(b)
+	s.r.note(fmt.Sprintf("smrecover %d", idx), false)
+	s.d.vol = idx
+	return nil
+}
+func (s *regSM) Close() error { return nil }
+
 type nodeProxy struct{ stop chan struct{} }
 
 func (n *nodeProxy) StepReady()                                                 {}
@@ -80,10 +111,15 @@ func (n *nodeProxy) ShouldStop() <-chan struct{}                                
 // state machine over the durable parts, replayLog, the initial node.recover.
 func (w *world) startNode(newNode bool) (outcome string) {
 	cfg := config.Config{ShardID: shardID, ReplicaID: replicaID, CompactionOverhead: 1, DisableAutoCompactions: true}
-	usm := &diskSM{d: w.disk, r: w.r}
 	proxy := &nodeProxy{stop: make(chan struct{})}
 	done := make(chan struct{})
-	msm := hk8.NewOnDiskSM(cfg, usm, done)
+	var msm hk8.IManagedStateMachine
+	if w.reg {
+		w.disk.vol, w.disk.dur = 0, 0 // a new process: nothing of a regular state machine survives
+		msm = hk8.NewRegularSM(cfg, &regSM{d: w.disk, r: w.r}, done)
+	} else {
+		msm = hk8.NewOnDiskSM(cfg, &diskSM{d: w.disk, r: w.r}, done)
+	}
 	w.node = hk8.NewNode(cfg, rootFunc, w.ldb, w.fs, func(ss hk8.ISnapshotter) *hk8.StateMachine {
 		return hk8.NewStateMachine(msm, ss, cfg, proxy, w.fs)
 	})
@@ -120,6 +156,15 @@ func (w *world) startNode(newNode bool) (outcome string) {
 
 // deliver hands committed entries to the apply path (rsm.StateMachine.Handle).
 func (w *world) deliver(ents []pb.Entry) {
+	// the step worker makes entries durable in the log store before they are applied
+	if !w.r.frozen && len(ents) > 0 {
+		last := ents[len(ents)-1]
+		ud := pb.Update{ShardID: shardID, ReplicaID: replicaID, EntriesToSave: ents,
+			State: pb.State{Term: last.Term, Commit: last.Index}}
+		if err := w.ldb.real.SaveRaftState([]pb.Update{ud}, 1); err != nil {
+			panic(err)
+		}
+	}
 	w.node.SM().TaskQ().Add(hk8.Task{Entries: ents})
 	if _, err := w.node.SM().Handle(make([]hk8.Task, 0, 4), make([]sm.Entry, 0, 4)); err != nil {
 		panic(err)
@@ -149,7 +194,7 @@ func (w *world) saveOnDisk() string {
 		return "skip"
 	}
 	ap := w.appliedIndex()
-	if ap == 0 || ap <= w.rec || ap != w.disk.vol {
+	if ap == 0 || ap <= w.rec || (!w.reg && ap != w.disk.vol) {
 		return "skip"
 	}
 	idx, err := w.node.DoSave(hk8.SSRequest{})
